@@ -60,6 +60,9 @@ func workerMain(jobFile string) {
 	o := ev.Eval(scope, fmt.Sprintf("(let ((*print-right-margin* %d)) (snapshot %q))", j.Margin, j.Snap))
 	if o.Kind != ev.Value {
 		rep.SnapErr = o.String()
+		if o.Kind == ev.Fault {
+			rep.SnapErr += "\n" + stackExcerpt(o.Stack)
+		}
 	}
 	for _, p := range j.Probes {
 		rep.Probes = append(rep.Probes, evalTraced(scope, p))
@@ -69,6 +72,21 @@ func workerMain(jobFile string) {
 		fmt.Fprintln(os.Stderr, "worker:", err)
 		os.Exit(4)
 	}
+}
+
+// stackExcerpt keeps the frames of slip from a Go stack.
+func stackExcerpt(stack string) string {
+	var keep []string
+	lines := strings.Split(stack, "\n")
+	for i, line := range lines {
+		if strings.HasPrefix(line, "github.com/ohler55/slip") && i+1 < len(lines) {
+			keep = append(keep, strings.TrimSpace(line)+" "+strings.TrimSpace(lines[i+1]))
+		}
+		if len(keep) >= 8 {
+			break
+		}
+	}
+	return strings.Join(keep, "\n")
 }
 
 var caseCtr atomic.Int64
